@@ -18,6 +18,15 @@ refuses it with a declared error (the caller is unlocked again).  Answers that
 responders produce after the switch are dropped by amp, so the calls that were
 outstanding across the switch stay unanswered and must fail, exactly once, with
 the loss reason when the fault machinery later takes the connection down.
+Command set: besides commands deriving directly from amp.Command, two families of commands related by INHERITANCE (child,
+grandchild, sibling of an error-declaring command; a child that adds an error, one that adds a fatal error, ones that declare a
+different exception under a wire code a relative uses - codes are per command).  Every responder may fail with every exception
+class of the scenario, so each command is also answered with exceptions that only a relative declares (undeclared for it).
+Application-level flow control: amp.AMP is an IPushProducer (pauseProducing / resumeProducing of the string receiver it is built
+on).  In half of the runs application code that runs inside responders and inside callRemote result callbacks pauses the own
+protocol (the rest of the delivery being worked through - deliveries routinely carry several boxes - stays buffered inside the
+protocol) or pauses / resumes the companion peer's protocol; the schedule also pauses between deliveries and resumes later, in any
+order with everything else, including loss while paused.
 
 Oracle = wire-level reference model, independent of amp.py: the byte streams
 each peer wrote / was delivered are parsed with an own 20-line box parser.
@@ -45,6 +54,14 @@ both sides are locked and the inner protocols are silent).  No verdict is given
 on callRemote while a side is locked (the scenario issues none); a call made
 after the loss of a switched connection may fail immediately or raise the
 documented ProtocolSwitched.
+Errors: the code a reply box must carry for what the responder raised, and the exception class the caller must see for a code,
+come from a table written down from the commands' own (and, as documented, inherited) declarations - never from amp's tables;
+where a command's declarations give one code to two classes no verdict on which of the two.
+Paused protocol: boxes that were delivered to S after the box during which the application paused S (and before S is resumed) may
+still sit in S's buffer: no verdict on whether S has acted on them yet (if it has, the usual content clauses apply).  As soon as
+resumeProducing() has returned (and no callback paused S again meanwhile) the full equivalence above holds again: everything
+delivered has been acted on.  If S loses the connection while paused, a call whose reply is among the buffered boxes must have
+fired exactly once, with that reply or with the loss reason (the statement does not say which).
 """
 from twisted.internet import defer, error, protocol
 from twisted.protocols import amp
@@ -56,7 +73,7 @@ ENGINE = "net"
 LEVEL = "exploration"
 TECHNIQUE = ("deterministic simulation: two real AMP peers over a simulated link, seeded call/answer interleaving, "
              "disconnects at byte boundaries; wire-level reference model compared after every step")
-QUICK_RUNS = 24000
+QUICK_RUNS = 20000
 TWIN_P = 0.08   # this share of the runs drives two independent instances of the scenario one after the other (detsim.runner._run_scenario)
 USES_DEPTH = True   # thorough tier: history length bound scales with sim.depth (1..3) beyond the quick tier\'s run indices
 BATCH = 100
@@ -66,12 +83,23 @@ COMPONENTS = {"real": ["twisted.protocols.amp.AMP (BoxDispatcher, BinaryBoxProto
               "stub": ["TCP transport, segmentation, loss/close/abort (detsim.net.Link)", "responder bodies and callRemote callers (tape-driven)"]}
 RULE = ("run = up to 60 tape-chosen operations (callRemote from either peer, fire a deferred responder result, network event, "
         "close/abort/drop/cut-at-byte-k) on two connected AMP peers, in 2 of 9 runs one ProtocolSwitchCommand from a tape-chosen peer at a "
-        "tape-chosen operation index (accepted or refused by the responder), then a final drop; non-trivial = at least one call was "
+        "tape-chosen operation index (accepted or refused by the responder), then a final drop; commands include two inheritance "
+        "families with added / code-reusing error declarations and responders raising every exception class of the scenario; in half "
+        "of the runs application-level pauseProducing/resumeProducing of either peer's protocol from responders, result callbacks and "
+        "between deliveries; non-trivial = at least one call was "
         "unanswered at disconnect AND at least one call was answered AND (a responder answered late or with an error)")
+SELF_RESUME_P = 0.0   # share of the in-callback pauses of the OWN protocol that are followed by resumeProducing() in the very same
+                      # callback (i.e. from inside that protocol's dataReceived); see ASSUMPTIONS
 ASSUMPTIONS = ["callers attach a callback that handles every result (no unhandledError path from user code)",
                "responders return well-formed responses; no TLS",
                "at most one protocol switch per run; the inner protocols write nothing; the scenario issues no callRemote on a side "
-               "while amp has it locked for the switch (documented to raise ProtocolSwitched)"]
+               "while amp has it locked for the switch (documented to raise ProtocolSwitched)",
+               "the application resumes a paused protocol only while the connection is up, and never from inside that same "
+               "protocol's own dataReceived (SELF_RESUME_P = 0: IntNStringReceiver.resumeProducing() re-enters dataReceived, and a "
+               "nested call re-parses the strings the outer loop has already handed out - responders run twice, answers arrive twice; "
+               "reported as an observation on protocols/basic.py, outside this property's statement)",
+               "no verdict on whether a paused protocol acts on boxes it already holds, nor on reply-or-loss-reason for such boxes at "
+               "disconnect"]
 
 
 class DeclaredErr(Exception):
@@ -83,6 +111,14 @@ class FatalErr(Exception):
 
 
 class Undeclared(Exception):
+    pass
+
+
+class ExtraErr(Exception):        # declared only by some commands of the inheritance families below
+    pass
+
+
+class AltErr(Exception):          # likewise; where declared, under a wire code another command uses for another exception
     pass
 
 
@@ -124,7 +160,59 @@ class Switch(amp.ProtocolSwitchCommand):   # issued at most once per run, see do
     errors = {DeclaredErr: b"DECL"}
 
 
-CMDS = {"Echo": Echo, "Twice": Twice, "Pad": Pad, "Note": Note, "Nope": Nope}
+# Commands related by inheritance (amp documents Command.errors / fatalErrors as inherited): arguments and response of the
+# parent, own command name, own additional error declarations.  Error codes are per command, so a subclass or a command of
+# another family may use a code that a relative uses for a different exception.
+class EchoPlus(Echo):             # adds a declared error
+    errors = {ExtraErr: b"EXTRA"}
+
+
+class EchoPlusFatal(EchoPlus):    # grandchild: adds a fatal error
+    fatalErrors = {AltErr: b"ALTFATAL"}
+
+
+class EchoAlt(Echo):              # declares another exception under the code its parent uses for DeclaredErr (defined last in its
+    errors = {AltErr: b"DECL"}    # family, so that no later relative re-states the inherited meaning of the code)
+
+
+class TwiceSub(Twice):            # second family: the same exception classes under other codes (EXTRA means AltErr here), and a
+    errors = {AltErr: b"EXTRA"}   # fatal error under the code the parent uses for the non-fatal DeclaredErr
+    fatalErrors = {ExtraErr: b"DECL"}
+
+
+CMDS = {"Echo": Echo, "Twice": Twice, "Pad": Pad, "Note": Note, "Nope": Nope,
+        "EchoPlus": EchoPlus, "EchoAlt": EchoAlt, "EchoPlusFatal": EchoPlusFatal, "TwiceSub": TwiceSub}
+SHAPE = {"EchoPlus": "Echo", "EchoAlt": "Echo", "EchoPlusFatal": "Echo", "TwiceSub": "Twice"}   # response shape of the parent
+
+# Reference table, written down from the declarations above and the documented inheritance rule (not read from amp's own tables):
+# command -> {exception class: wire code}, inherited declarations included.  Anything else a responder raises is undeclared.
+_BASE = {DeclaredErr: b"DECL", FatalErr: b"FATAL"}
+DECLARED = {
+    "Echo": dict(_BASE), "Twice": dict(_BASE), "Pad": dict(_BASE), "Note": {}, "Nope": {},
+    "Switch": {DeclaredErr: b"DECL"},
+    "EchoPlus": dict(_BASE),
+    "EchoAlt": dict(_BASE),
+    "EchoPlusFatal": dict(_BASE),
+    "TwiceSub": dict(_BASE),
+}
+DECLARED["EchoPlus"][ExtraErr] = b"EXTRA"
+DECLARED["EchoAlt"][AltErr] = b"DECL"
+DECLARED["EchoPlusFatal"][ExtraErr] = b"EXTRA"
+DECLARED["EchoPlusFatal"][AltErr] = b"ALTFATAL"
+DECLARED["TwiceSub"][AltErr] = b"EXTRA"
+DECLARED["TwiceSub"][ExtraErr] = b"DECL"
+RAISES = {"declared": DeclaredErr, "fatal": FatalErr, "undeclared": Undeclared, "extra": ExtraErr, "alt": AltErr}
+
+
+def wire_code(cmd, kind):
+    """The error code the responder side must put on the wire when a responder of `cmd` fails with RAISES[kind]."""
+    return DECLARED[cmd].get(RAISES[kind], b"UNKNOWN")
+
+
+def error_classes(cmd, code):
+    """The exception classes `cmd` declares under `code` (more than one where a subclass re-uses an inherited code: no verdict
+    on which of them the caller sees)."""
+    return tuple(e for e, k in DECLARED[cmd].items() if k == code)
 
 
 # ------------------------------------------------------------------ reference
@@ -152,6 +240,7 @@ def parse_boxes(data):
 
 
 def expected_response(cmd, n, who, fill):
+    cmd = SHAPE.get(cmd, cmd)
     if cmd == "Echo":
         return {"n": n, "who": who}
     if cmd == "Twice":
@@ -205,7 +294,16 @@ def make_peer(h, name):
         def connectionLost(self, reason):
             h.lost[name] = reason
             h.sim.event("lost", name, reason.type.__name__)
+            if h.paused[name]:
+                h.sim.fault("lost_while_app_paused")
             amp.AMP.connectionLost(self, reason)
+
+        def dataReceived(self, data):
+            h.indeliv[name] += 1        # workload control only: is a delivery to this peer on the stack?
+            try:
+                amp.AMP.dataReceived(self, data)
+            finally:
+                h.indeliv[name] -= 1
 
         def _r(self, cmd, n, fill=None):
             return h.respond(name, cmd, n, fill)
@@ -225,6 +323,22 @@ def make_peer(h, name):
         @Note.responder
         def note(self, n):
             return self._r("Note", n)
+
+        @EchoPlus.responder
+        def echo_plus(self, n):
+            return self._r("EchoPlus", n)
+
+        @EchoAlt.responder
+        def echo_alt(self, n):
+            return self._r("EchoAlt", n)
+
+        @EchoPlusFatal.responder
+        def echo_plus_fatal(self, n):
+            return self._r("EchoPlusFatal", n)
+
+        @TwiceSub.responder
+        def twice_sub(self, n):
+            return self._r("TwiceSub", n)
 
         @Switch.responder
         def switch(self, n):
@@ -249,20 +363,95 @@ class Harness:
         self.sw_state = 0       # 0 none, 1 asked, 2 acknowledged, 3 refused / failed by loss
         self.sw_pending = 0     # calls of both sides outstanding when the acknowledgement arrived
         self.inner_bytes = {"A": 0, "B": 0}
+        # application-level flow control of the peers' protocols (IPushProducer.pauseProducing / resumeProducing of amp.AMP)
+        self.pause_p = 0.0
+        self.paused = {"A": False, "B": False}
+        self.hold = {"A": None, "B": None}      # paused side: number of leading complete delivered boxes it has certainly been through
+        self.indeliv = {"A": 0, "B": 0}
+        self.cur = {"A": [], "B": []}           # (kind, n) of the box whose responder / result callback is running, innermost last
+        self.peers = self.link = self.trans = None
+
+    # -- application-level pause / resume
+    def _boxes(self, side):
+        return parse_boxes(self.link.delivered[side])
+
+    def _box_index(self, side, kind, n):
+        boxes = self._boxes(side)
+        if kind == "cmd":
+            for i, b in enumerate(boxes):
+                if b"_command" in b and b"n" in b and int(b[b"n"]) == n:
+                    return i
+        else:
+            tags = {b[b"_ask"] for b in parse_boxes(self.trans[side].written)
+                    if b"_command" in b and b"_ask" in b and int(b[b"n"]) == n}
+            for i, b in enumerate(boxes):
+                if b.get(b"_answer", b.get(b"_error")) in tags:
+                    return i
+        raise AssertionError("box being processed not found among the delivered ones: %s %s %d" % (side, kind, n))
+
+    def pause(self, t, where):
+        sim = self.sim
+        self.paused[t] = True
+        if self.indeliv[t]:
+            # called while t is working through a delivery: what follows the box being processed stays in t's buffer
+            kind, n = self.cur[t][-1]
+            self.hold[t] = self._box_index(t, kind, n) + 1
+            if len(self._boxes(t)) > self.hold[t]:
+                sim.probe("app_paused_with_received_boxes_waiting")
+        else:
+            self.hold[t] = len(self._boxes(t))
+        sim.event("app-pause", t, where, self.hold[t])
+        sim.fault("app_pause_" + where)
+        with sim.guard("protocol-raised", "pauseProducing"):
+            self.peers[t].pauseProducing()
+
+    def resume(self, t, where):
+        sim = self.sim
+        waiting = len(self._boxes(t)) - self.hold[t]
+        self.paused[t] = False
+        self.hold[t] = None                     # a pause issued while the buffer is drained sets it again
+        sim.event("app-resume", t, where, waiting)
+        sim.probe("app_resume_" + where)
+        if waiting > 0:
+            sim.probe("app_resume_with_received_boxes_waiting")
+        with sim.guard("protocol-raised", "resumeProducing"):
+            self.peers[t].resumeProducing()
+
+    def app_flow(self, side, where):
+        """Back-pressure applied by application code that runs inside a responder / a callRemote result callback of `side`:
+        pause or resume the own connection's protocol or the companion one."""
+        sim = self.sim
+        if not self.pause_p or not sim.draw_bool(self.pause_p, "flow"):
+            return
+        t = sim.draw_weighted([(side, 3), ("B" if side == "A" else "A", 1)], "flow_target")
+        if self.lost[t] is not None:
+            return
+        if t != side:
+            where = "companion"
+        if not self.paused[t]:
+            self.pause(t, where)
+            if SELF_RESUME_P and self.indeliv[t] and sim.draw_bool(SELF_RESUME_P, "self_resume"):
+                self.resume(t, "inside_own_delivery")
+        elif not self.indeliv[t]:
+            self.resume(t, where)
 
     # -- responder bodies (tape-driven)
     def outcome_value(self, side, cmd, n, fill, kind):
         if kind == "ok":
             return expected_response(cmd, n, side.encode(), fill) if cmd != "Note" else {}
-        if kind == "declared":
-            return Failure(DeclaredErr("declared n=%d" % n))
-        if kind == "fatal":
-            return Failure(FatalErr("fatal n=%d" % n))
-        return Failure(Undeclared("undeclared n=%d" % n))
+        if kind in ("extra", "alt"):
+            self.sim.probe("raised_family_error_declared_by_this_command" if RAISES[kind] in DECLARED[cmd]
+                           else "raised_family_error_declared_only_by_related_command")
+        return Failure(RAISES[kind]("%s n=%d" % (kind, n)))
 
     def respond(self, side, cmd, n, fill):
         sim = self.sim
         self.invoked[(side, n)] = self.invoked.get((side, n), 0) + 1
+        self.cur[side].append(("cmd", n))
+        try:
+            self.app_flow(side, "responder")
+        finally:
+            self.cur[side].pop()
         if cmd == "Note":
             kind = sim.draw_weighted([("ok", 8), ("undeclared", 1)], "note_resp")
             sim.event("respond", side, cmd, n, kind)
@@ -270,7 +459,7 @@ class Harness:
                 sim.fault("note_responder_raises")
                 raise Undeclared("note n=%d" % n)
             return {}
-        kind = sim.draw_weighted([("ok", 9), ("later", 6), ("declared", 2), ("undeclared", 1), ("fatal", 1)], "resp")
+        kind = sim.draw_weighted([("ok", 18), ("later", 12), ("declared", 4), ("undeclared", 2), ("fatal", 2), ("extra", 1), ("alt", 1)], "resp")
         sim.event("respond", side, cmd, n, kind)
         if kind == "later":
             d = defer.Deferred()
@@ -307,7 +496,7 @@ class Harness:
     def fire_late(self):
         sim = self.sim
         side, n, cmd, fill, d = self.late.pop(sim.draw_int(0, len(self.late) - 1, "which_late"))
-        kind = sim.draw_weighted([("ok", 6), ("declared", 2), ("undeclared", 1), ("fatal", 1)], "late_resp")
+        kind = sim.draw_weighted([("ok", 12), ("declared", 4), ("undeclared", 2), ("fatal", 2), ("extra", 1), ("alt", 1)], "late_resp")
         sim.event("fire_late", side, cmd, n, kind)
         self.decision[(side, n)] = kind
         if kind != "ok":
@@ -326,15 +515,26 @@ def run(sim):
     reent = sim.draw_choice([0.0, 0.0, 0.25], "reentrancy")
     sw_side = sim.draw_choice(["", "", "", "", "", "", "", "A", "B"], "switch_side")
     sw_at = sim.draw_int(1, max(1, (2 * nops) // 3), "switch_at") if sw_side else -1
-    sim.config = {"nops": nops, "fault_rate": fault_rate, "reentrancy": reent, "switch": sw_side, "switch_at": sw_at}
+    pause_p = sim.draw_choice([0.0, 0.0, 0.12, 0.35], "app_pause")
+    sim.config = {"nops": nops, "fault_rate": fault_rate, "reentrancy": reent, "switch": sw_side, "switch_at": sw_at,
+                  "app_pause": pause_p}
     h = Harness(sim)
+    h.pause_p = pause_p
     peers = {"A": make_peer(h, "A"), "B": make_peer(h, "B")}
     link = net.Link(sim, peers["A"], peers["B"])
     trans = {"A": link.a, "B": link.b}
+    h.peers, h.link, h.trans = peers, link, trans
     link.connect()
     depth = [0]
 
     def on_result(res, call):
+        h.cur[call.side].append(("res", call.n))
+        try:
+            return on_result_1(res, call)
+        finally:
+            h.cur[call.side].pop()
+
+    def on_result_1(res, call):
         call.results.append(res)
         sim.event("result", call.side, call.n, "F:" + res.type.__name__ if isinstance(res, Failure) else "ok")
         if call.cmd == "Switch":
@@ -355,6 +555,8 @@ def run(sim):
                 do_call(call.side)
             finally:
                 depth[0] -= 1
+        if h.lost[call.side] is None:
+            h.app_flow(call.side, "callback")       # (a result produced by the loss itself is no occasion for flow control)
         return None
 
     def can_call(side):
@@ -364,7 +566,8 @@ def run(sim):
         if not can_call(side):
             sim.probe("call_blocked_by_switch")     # only reachable re-entrantly from a result callback
             return
-        cmd = sim.draw_weighted([("Echo", 4), ("Twice", 3), ("Pad", 2), ("Note", 2), ("Nope", 1)], "cmd")
+        cmd = sim.draw_weighted([("Echo", 4), ("Twice", 3), ("Pad", 2), ("Note", 2), ("Nope", 1),
+                                 ("EchoPlus", 2), ("EchoAlt", 2), ("EchoPlusFatal", 1), ("TwiceSub", 2)], "cmd")
         n = h.next_n
         h.next_n += 1
         fill = None
@@ -450,24 +653,32 @@ def run(sim):
                     sim.check("reply-matches-responder", b.get(b"_error_code") == b"UNHANDLED", "unhandled", "box %r" % (b,))
                     continue
                 if b"_answer" in b:
-                    want = "ok"
+                    good = dec == "ok"
                 else:
-                    want = {b"DECL": "declared", b"FATAL": "fatal", b"UNKNOWN": "undeclared"}.get(b.get(b"_error_code"), "?")
-                sim.check("reply-matches-responder", dec == want, "responder",
-                          lambda: "side %s n=%d responder chose %r but box is %r" % (s, n, dec, b))
+                    # the code this command declares for what the responder raised (own and inherited declarations only), else UNKNOWN
+                    good = dec in RAISES and b.get(b"_error_code") == wire_code(q.cmd, dec)
+                sim.check("reply-matches-responder", good, "responder",
+                          lambda: "side %s n=%d (%s) responder chose %r but box is %r" % (s, n, q.cmd, dec, b))
             # --- responder invocations
+            # boxes from index `lim` on were received after the application paused s's protocol (and s has not been resumed
+            # since): s may still hold them unprocessed, no verdict on whether it has acted on them yet
+            lim = len(delivered[s]) if h.hold[s] is None else min(h.hold[s], len(delivered[s]))
             asked = [int(b[b"n"]) for b in delivered[s] if b"_command" in b and b[b"_command"] != b"Nope"]
+            must = [int(b[b"n"]) for b in delivered[s][:lim] if b"_command" in b and b[b"_command"] != b"Nope"]
             for n in asked:
-                sim.check("responder-ran-once", h.invoked.get((s, n), 0) == 1, "responder",
-                          "side %s command n=%d delivered, responder ran %d times" % (s, n, h.invoked.get((s, n), 0)))
-            sim.check("no-spurious-responder", sum(1 for k in h.invoked if k[0] == s) == len(set(asked)), "responder",
+                ran = h.invoked.get((s, n), 0)
+                sim.check("responder-ran-once", ran == 1 or (ran == 0 and n not in must), "responder",
+                          "side %s command n=%d delivered, responder ran %d times" % (s, n, ran))
+            sim.check("no-spurious-responder", set(k[1] for k in h.invoked if k[0] == s) <= set(asked), "responder",
                       lambda: "side %s responders ran for %r, commands delivered %r" % (s, sorted(k[1] for k in h.invoked if k[0] == s), asked))
             # --- caller side
-            answered = {}
-            for b in delivered[s]:
+            answered, waiting = {}, set()
+            for i, b in enumerate(delivered[s]):
                 tag = b.get(b"_answer", b.get(b"_error"))
                 if tag is not None and tag in tag2n[s]:
                     answered[tag2n[s][tag]] = b
+                    if i >= lim:
+                        waiting.add(tag2n[s][tag])
             lost = h.lost[s]
             for c in h.calls[s]:
                 if c.d is None:
@@ -477,6 +688,16 @@ def run(sim):
                     continue
                 fired = bool(c.results)
                 r = c.results[0] if fired else None
+                if c.n in waiting:
+                    # reply received while s's protocol is paused by the application: it must fire (with this reply) once s is
+                    # resumed; if the connection is lost before that, either this reply or the loss reason
+                    if lost is not None:
+                        sim.check("unanswered-fails-at-disconnect", fired, c.cmd, "n=%d still pending after connectionLost "
+                                  "(its reply was received while the protocol was paused)" % c.n)
+                        if isinstance(r, Failure) and r.value is lost.value:
+                            continue
+                    elif not fired:
+                        continue
                 if c.n in answered:
                     b = answered[c.n]
                     sim.check("answered-call-fired", fired, c.cmd, lambda: "n=%d reply box %r delivered but Deferred pending" % (c.n, b))
@@ -490,12 +711,10 @@ def run(sim):
                             continue
                         if code == b"UNKNOWN":
                             ok = r.check(amp.UnknownRemoteError) is not None
-                        elif code == b"DECL":
-                            ok = r.check(DeclaredErr) is not None and ("n=%d" % c.n) in str(r.value)
-                        elif code == b"FATAL":
-                            ok = r.check(FatalErr) is not None and ("n=%d" % c.n) in str(r.value)
                         else:
-                            ok = False
+                            # the exception class the CALLED command declares under this code
+                            classes = error_classes(c.cmd, code)
+                            ok = bool(classes) and r.check(*classes) is not None and ("n=%d" % c.n) in str(r.value)
                         sim.check("own-error", ok, c.cmd, lambda: "n=%d error box %r but result %s" % (c.n, b, show(r)))
                 elif lost is not None:
                     sim.check("unanswered-fails-at-disconnect", fired, c.cmd, "n=%d still pending after connectionLost" % c.n)
@@ -517,6 +736,8 @@ def run(sim):
         ops = [("net", 50 if live and link.enabled() else 0),
                ("callA", 10 if can_call("A") else 0), ("callB", 10 if can_call("B") else 0),
                ("late", 10 if h.late else 0),
+               ("apppause", 2 if pause_p and any(h.lost[s] is None and not h.paused[s] for s in "AB") else 0),
+               ("appresume", 12 if any(h.lost[s] is None and h.paused[s] for s in "AB") else 0),
                ("cutdrop", fault_rate if live else 0),
                ("drop", fault_rate if live else 0),
                ("close", fault_rate if live else 0),
@@ -544,6 +765,10 @@ def run(sim):
             do_call("B")
         elif op == "late":
             h.fire_late()
+        elif op == "apppause":
+            h.pause(sim.draw_choice([s for s in "AB" if h.lost[s] is None and not h.paused[s]], "pause_side"), "between_deliveries")
+        elif op == "appresume":
+            h.resume(sim.draw_choice([s for s in "AB" if h.lost[s] is None and h.paused[s]], "resume_side"), "later")
         elif op == "cutdrop":
             # connection loss at an exact byte boundary of one direction
             to = sim.draw_choice(["A", "B"], "cut_dir")
@@ -579,6 +804,10 @@ def run(sim):
                    min(sum(1 for c in h.calls["B"] if c.d is not None and not c.results), 3)))
 
     # ------------------------------------------------------------------ end of run
+    for s in "AB":
+        if h.paused[s] and h.lost[s] is None and sim.draw_bool(0.6, "final_resume"):
+            h.resume(s, "later")
+            check_all()
     if h.lost["A"] is None or h.lost["B"] is None:
         sim.event("final-drop")
         with sim.guard("protocol-raised", "net"):
@@ -636,6 +865,19 @@ MUTANTS = [
     "amp.py _SwitchBox._sendTo: responder side not locked (late answers written after the acknowledgement reach the caller's inner "
     "protocol) -> survives by design: the statement gives no verdict on bytes after the switch; the affected calls are unanswered and "
     "still fail at disconnect",
+    "seeded/C31-r4a (_CommandMeta: a Command subclass writes its error declarations into its parent's reverseErrors/allErrors) -> "
+    "missed while every command derived directly from amp.Command; now caught (reply-matches-responder, own-error)",
+    "amp.py _CommandMeta: only reverseErrors shared with the parent (caller-side mapping) -> caught (own-error:Echo, own-error:Twice); "
+    "survived until the code-reusing subclass was defined LAST in its family (a later relative re-stated the inherited code)",
+    "amp.py _CommandMeta: errors not inherited (own declarations only) -> caught (reply-matches-responder)",
+    "amp.py _CommandMeta: subclass's allErrors merged into every base's allErrors -> caught (reply-matches-responder)",
+    "seeded/C31-r4b (BinaryBoxProtocol.dataReceived ignores empty deliveries, so resumeProducing() drains nothing) -> missed while no "
+    "peer was ever paused; now caught (answered-call-fired, responder-ran-once)",
+    "basic.py _PauseableMixin.resumeProducing: dataReceived(b'') dropped -> caught (answered-call-fired, responder-ran-once)",
+    "basic.py IntNStringReceiver.dataReceived: buffered rest discarded when the loop stops because of a pause -> caught "
+    "(responder-ran-once, answered-call-fired)",
+    "basic.py IntNStringReceiver.dataReceived: a pause issued while resumeProducing() drains the buffer is ignored -> survives by design "
+    "(no verdict on a paused protocol acting on boxes it already holds)",
     "re-run with the Switch workload: failAllOutgoing errback skipped, _nextTag % 4, fresh loss reason, dispatchCommand twice, "
     "_answerReceived without pop -> all still caught with the clauses listed above",
 ]
